@@ -468,6 +468,59 @@ def reentrant_cells(ctx):
 
 
 # ------------------------------------------------------------------ anytrait
+def container_reentrant_cells(ctx):
+    """two handlers observe the items of one container; the first removes
+    its own registration while it is being called: the second one is still
+    called for that very change, exactly once (and from then on alone)"""
+    for cname, mutate in (("kids", lambda o, x: o.kids.append(x)),
+                          ("kmap", lambda o, x: o.kmap.__setitem__(
+                              "k%d" % len(o.kmap), x)),
+                          ("kset", lambda o, x: o.kset.add(x))):
+        for order in ("remover-first", "remover-last"):
+            case = {"reentrant": "container-" + order, "expr": cname}
+            ctx.case(case)
+            ctx.ev()
+            ctx.tr()
+            pool = G.make_pool()
+            root, n1, n2 = pool
+            getattr(root, cname)            # materialise
+            calls = {"remover": 0, "other": 0}
+            expr = cname + ":items"
+
+            def remover(ev):
+                calls["remover"] += 1
+                root.observe(remover, expr, remove=True)
+
+            def other(ev):
+                calls["other"] += 1
+            for h in ((remover, other) if order == "remover-first"
+                      else (other, remover)):
+                root.observe(h, expr)
+            try:
+                mutate(root, n1)
+                first = dict(calls)
+                mutate(root, n2)
+            except Exception as exc:
+                ctx.violation("C09:reentrant:container:raises", "%r" % (exc,),
+                              **case)
+                continue
+            if first != {"remover": 1, "other": 1}:
+                ctx.violation(
+                    "C09:reentrant:container:in-flight:%s" % cname,
+                    "a handler removed its own registration while the "
+                    "container change was being delivered; for that change "
+                    "the handlers were called %r (each is registered once)"
+                    % (first,), **case)
+                continue
+            if calls != {"remover": 1, "other": 2}:
+                ctx.violation(
+                    "C09:reentrant:container:afterwards:%s" % cname,
+                    "after the self-removal the next change called %r"
+                    % ({k: calls[k] - first[k] for k in calls},), **case)
+                continue
+            ctx.outcome("counted-call")
+
+
 def anytrait_cells(ctx):
     """observe(h, "*") (and a filter given as a bound method) together with
     traits that appear after the registration"""
@@ -790,6 +843,7 @@ def shards(tier):
 def run_shard(ctx, shard, tier):
     if shard["first"] == -1:
         reentrant_cells(ctx)
+        container_reentrant_cells(ctx)
         ctx.depth_completed = 2
         return
     if shard["first"] == -2:
@@ -832,6 +886,11 @@ def replay(rec):
         for v in hit:
             print("  violation:", v["sig"], v["msg"])
         return not hit
+    if str(c.get("reentrant", "")).startswith("container-"):
+        container_reentrant_cells(ctx)
+        for v in ctx.violations.values():
+            print("  violation:", v["sig"], v["msg"])
+        return not ctx.violations
     if c.get("reentrant"):
         reentrant_cells(ctx)
         for v in ctx.violations.values():
